@@ -100,16 +100,37 @@ def run_group(name, outdir, rlimit=None, canary_calls=None, timeout=600):
 
 
 def _run_group_in(name, outdir, rlimit=None, canary_calls=None, timeout=600):
+    """One or more attempts: a fn unit that cannot be extracted, or whose spliced text the verifier refuses to type-check, is
+    replaced by its contract (stubbed) and the rest of the group is verified again. Nothing is stubbed on the unchanged tree."""
+    stub = []
+    last = None
+    for attempt in range(6):
+        res = _run_group_once(name, outdir, rlimit, canary_calls, timeout, tuple(stub))
+        res['stubbed'] = list(stub)
+        culprits = [u for u in res.pop('culprits', []) if u not in stub]
+        if res['status'] == 'undecided' and res.get('soft') and culprits:
+            stub.extend(culprits)
+            last = res
+            continue
+        if stub and res['status'] in ('proved', 'failed'):
+            res['partial'] = 'units not verified on this tree (code shape changed): %s -- first reason: %s' % (', '.join(stub), (last or {}).get('reason', '')[:200])
+        return res
+    return res
+
+
+def _run_group_once(name, outdir, rlimit=None, canary_calls=None, timeout=600, stub=()):
     t0 = time.time()
     # soft = the verifier could not be asked because the code changed shape (lost anchor, construct outside the supported subset);
     # hard = the verifier was asked and gave no verdict (rlimit, crash) or a guard failed
     res = dict(group=name, status='undecided', soft=False, reason='', functions=[], failures=[], units=[], rewrites=0,
                census=[], wall_s=0.0, solver='z3 (bundled with Verus 0.2026.09.13)')
     try:
-        path, metas, log, g = extract.build_group(name, outdir)
+        path, metas, log, g = extract.build_group(name, outdir, stub)
     except ExtractError as e:
         res['reason'] = 'extraction: %s' % e
         res['soft'] = True
+        if getattr(e, 'stubbable', False):
+            res['culprits'] = [e.unit_id]
         res['wall_s'] = time.time() - t0
         return res
     except (OSError, KeyError, ValueError) as e:
@@ -174,6 +195,7 @@ def _run_group_in(name, outdir, rlimit=None, canary_calls=None, timeout=600):
                                   ms=fb.get('time-micros', 0) / 1000.0, rlimit=fb.get('rlimit'), success=fb.get('success')))
     res['functions'] = funcs
     canary_seen = False
+    culprits = []
     hard = []      # non-verification errors => undecided
     for d in errors:
         msg = d.get('message', '')
@@ -204,12 +226,20 @@ def _run_group_in(name, outdir, rlimit=None, canary_calls=None, timeout=600):
             hard.append('rlimit: ' + msg)
         else:
             hard.append(msg[:300])
+            # which unit's text does the verifier refuse? (a body unit: candidate for stubbing)
+            for ln in [line] + all_lines:
+                u, f_, l_ = extract.map_line(metas, ln, text)
+                mm = [m for m in metas if m['id'] == u]
+                if u and mm and mm[0].get('kind') == 'fn' and mm[0].get('mode') == 'body':
+                    culprits.append(u)
+                    break
     res['wall_s'] = time.time() - t0
     if summary is None and not errors:
         res['reason'] = 'verus produced no result (exit %s): %s' % (p.returncode, p.stderr[-400:])
         return res
     if hard:
         res['soft'] = not any(h.startswith('rlimit') for h in hard)
+        res['culprits'] = sorted(set(culprits))
         res['reason'] = 'not a verification verdict: ' + ' | '.join(hard[:3])
         res['failures'] = []       # cannot trust partial verdicts from a file that does not type-check
         return res
